@@ -88,7 +88,7 @@ func c41() {
 			mu.Unlock()
 		})
 	}
-	hb := startHeartbeat()
+	hb := startHeartbeat(filepath.Join(base, "heartbeat"))
 	nC := r.Pick(8, 120)
 	for i := 0; i < nC; i++ {
 		i := i
